@@ -386,7 +386,7 @@ def run_pow(u, out):
                                              'detail': {'index': [int(i) for i in bad], 'got': complex(res.data[tuple(bad)]), 'expected': complex(ref[tuple(bad)])}})
 
 
-ALIAS_FORMS = ['same', 'reversed', 'transposed', 'overlap']
+ALIAS_FORMS = ['same', 'reversed', 'transposed', 'overlap', 'row0', 'element']
 
 
 def run_alias(u, out):
@@ -405,8 +405,14 @@ def run_alias(u, out):
                             L, R = x, x[::-1]
                         elif form == 'transposed':
                             L, R = x, x.T
-                        else:
+                        elif form == 'overlap':
                             L, R = x[0:3], x[1:4]
+                        elif form == 'row0':
+                            x = UTPM(fill_utpm(D, P, (3, 2), cplx, 'dense', 5 + D, dv))
+                            L, R = x, x[0]                  # lower-rank view of the left operand (broadcast)
+                        else:
+                            x = UTPM(fill_utpm(D, P, (2, 3), cplx, 'dense', 6 + D, dv))
+                            L, R = x, x[1, 2]
                         Lc, Rc = UTPM(L.data.copy()), UTPM(R.data.copy())
                         case = {'kind': 'alias', 'op': opn, 'form': form, 'D': D, 'P': P, 'cplx': cplx, 'divisor': dv, 'tier': u['tier']}
                         out['evals'] += 1
